@@ -1667,3 +1667,33 @@ def fam_text_small(tier):
                         buf.put(off + 6 * i, 6, c)
                     emit(sc, buf, "D")
     return sc
+
+
+
+# ===========================================================================
+# the common core: a compact mixture of every kind of scenario, run by EVERY property's check (on the std and the
+# no-allocator build).  Whatever it turns up is charged by the attribution rules, so it adds no alarms for
+# properties that hold - but it gives each check a look at situations its own families do not construct
+# (histories in front of decodes, fragment groups around every message type, capacity edges, noise ...).
+# ===========================================================================
+def fam_core(tier):
+    thorough = tier == "thorough"
+    sc = Scenario()
+    parts = [fam_random_messages(tier, n_q=900, n_t=6000, tag="core-randmsg"),
+             fam_decode_history(tier),
+             fam_capacity(tier),
+             fam_text_small(tier)]
+    for part in parts:
+        sc.units += part.units
+    # unarmor at the lengths where buffers and capacities change
+    rnd = rng("core-armor")
+    sc.unit()
+    for n in (0, 1, 2, 3, 4, 5, 7, 100, 127, 128, 129, 130, 255, 256, 257, 384, 385, 511, 512, 513, 514, 700, 1000):
+        for fill in (0, 1, 5) if n > 5 else range(6):
+            sc.unarmor(rand_armor(rnd, n), fill)
+            sc.unarmor(b"w" * n, fill)
+    # a slice of the history families
+    for gen, every in ((fam_seq, 3), (fam_twin, 3), (fam_frag, 2)):
+        part = gen(tier)
+        sc.units += [u for i, u in enumerate(part.units) if i % every == 0]
+    return sc
